@@ -434,6 +434,14 @@ def mon_restart_budget(run):
     budget = run.cfg["max_restart"]
     spawns = [k for k, o in run.outs if o[0] == "spawn"]
     summaries = [k for k, o in run.outs if o[0] == "summary"]
+    # the documented summary line, as it stands at the END of the run (seeded C10-8: later deaths overwrote it with a larger number)
+    text = run.summary.get("summary_report")
+    if text is not None and budget is not None:
+        import re as _re
+        ok = (_re.fullmatch(r"worker gw\d+ crashed and worker restarting disabled", text) is not None) if budget <= 0 \
+            else text == "maximum crashed workers reached: %d" % budget
+        if not ok:
+            out.append((sig(run, kind="summary-line-wrong"), {"summary": text, "budget": budget}))
     if budget is not None:
         if len(spawns) > max(0, budget):
             out.append((sig(run, kind="restarts-exceed-budget"), {"spawns": len(spawns), "budget": budget}))
